@@ -179,7 +179,7 @@ func init() {
 	register(&Property{
 		ID:    "C16",
 		Level: "other",
-		Rules: []Rule{{"N1", ruleN1}, {"B1", ruleB1}, {"B2", ruleB2}, {"B3", ruleB3}, {"B4", ruleB4}, {"B5", ruleB5}, {"B6", ruleB6}},
+		Rules: []Rule{{"N1", ruleN1}, {"B1", ruleB1}, {"B2", ruleB2}, {"B3", ruleB3}, {"B4", ruleB4}, {"B5", ruleB5}, {"B6", ruleB6}, {"V2", ruleV2}},
 		Explanation: "Decides only the structural clause 'Len() and the block visits work on an empty collection': the item results of the API-level getters whose summary (computed from their returns) says they may answer (nil, nil) — GetItem, MinItem, MaxItem and the walk they pass through — are compared with nil on every path before any field access, at every call site in the library. NOT decided, and not decidable by a sound static rule in reach: that every item is presented exactly once for every size and block permutation (the block arithmetic over run-time counts; see DESIGN §5 D5 for a confirmed duplicate visit of VisitItemsRandom that no rule here can see).",
 		Assumptions: []string{"itemLoc.read answers (nil,nil) only for a handle that is neither cached nor persisted, which the tree invariant excludes (its callers are not constrained by N1)"},
 		ControlSrc:  controlC16,
